@@ -408,6 +408,9 @@ theorem afterConnected_ni (s : State) {k : Caller} (h : k.idSaved = []) :
 theorem startIdent_ni (s : State) (k : Caller) (h : s.cfg.ident = []) : startIdent s k = afterIdent s k := by
   unfold startIdent; rw [h]
 
+theorem startIdent_ni' (s : State) (k : Caller) (h : s.cfg.ident = []) :
+    startIdent { s with isConn := true } k = afterIdent { s with isConn := true } k := startIdent_ni _ k h
+
 theorem identFree_failTo {k : Caller} (h : identFree k) : identFree (failTo k) := by
   unfold failTo; refine ⟨?_, h.2⟩; simp only; split <;> rfl
 
@@ -463,6 +466,37 @@ theorem step_identFree (s s' : State) (t c : Nat) (e : Ev) (h : stepCaller s t c
         | (apply identFree_afterConnected; first | exact ⟨rfl, hf.2⟩ | exact ⟨hf.1, hf.2⟩)
         | (apply identFree_nextReq; first | exact ⟨rfl, hf.2⟩ | exact ⟨hf.1, hf.2⟩))
     | skip)
+
+set_option hygiene false in
+/-- `step_arms` for communicators without identification (hypotheses `hid : s.cfg.ident = []` and
+`hf : identFree (s.callers c)` in the context): the arms of checkHWIdent and of a connection dropped by another thread
+are closed, `startIdent` / `rcFail` are reduced -/
+macro "step_arms_ni" : tactic => `(tactic| (
+  step_arms
+  all_goals (try (exfalso; simp [identFree, identPc, hpc] at hf; done))
+  all_goals (try (exfalso; simp [hid] at hg; done))
+  all_goals (try (rw [startIdent_ni' _ _ hid] at hp))
+  all_goals (try (rw [startIdent_ni' _ _ hid]))
+  all_goals (try (rw [rcFail_ni hf.2] at hp))
+  all_goals (try (rw [rcFail_ni hf.2]))))
+
+theorem afterConnected_pc_cases (s : State) (k : Caller) (h : k.idSaved = []) :
+    (afterConnected s k).pc = .done ∨ (afterConnected s k).pc = .acqI ∨ (afterConnected s k).pc = .fail := by
+  rw [afterConnected_ni s h]
+  split
+  · by_cases hp : k.kind = .poll <;> simp [hp]
+  · split
+    · simp
+    · unfold failTo; simp only; split <;> simp
+
+theorem afterIdent_pc_cases (s : State) (k : Caller) (h : k.idSaved = []) :
+    (afterIdent s k).pc = .done ∨ (afterIdent s k).pc = .acqI ∨ (afterIdent s k).pc = .fail ∨ ∃ l, (afterIdent s k).pc = .cbs l := by
+  unfold afterIdent
+  split
+  · split
+    · rcases afterConnected_pc_cases s k h with h' | h' | h' <;> simp [h']
+    · exact Or.inr (Or.inr (Or.inr ⟨_, rfl⟩))
+  · rcases afterConnected_pc_cases s k h with h' | h' | h' <;> simp [h']
 
 theorem step_cfg (s s' : State) (t c : Nat) (e : Ev) (h : stepCaller s t c e = some s') : s'.cfg = s.cfg := by
   step_arms
